@@ -325,7 +325,12 @@ def main (args : List String) : IO UInt32 := do
             dsProgs.all fun (d, a) => Props.lutMatches f p d.refresh a
           let keeps := name != "sleep" && name != "new" && name != "wake" && all (Props.keepsModeP p)
           let estab := (name == "new" || name == "wake") && all (Props.establishesModeP p)
-          IO.println s!"S {p.name} {name} keeps={keeps} estab={estab} sleepDeep={sleepDeep} wakeNew={wakeNew} lutSel={lutSel} lutCur={lutCur} resetFirst={all (Props.C11.goodResets true)} resetAny={all (Props.C11.goodResets false)} abs0={show1 s0} abs1={show1 s1} conforms={all (Props.opConforms p (if name.startsWith "lut" then "lut" else if name.startsWith "refresh" then "refresh" else name))}"
+          let notEdge := name != "sleep" && name != "new" && name != "wake"
+          let pwOn := notEdge && all (fun a => Props.powerSafeP p a true == some true)
+          let pwAny := notEdge && all (fun a => (Props.powerSafeP p a true).isSome && (Props.powerSafeP p a false).isSome)
+          let pwEstOn := !notEdge && name != "sleep" && all (fun a => Props.powerEstablishP p a == some true)
+          let pwEst := !notEdge && name != "sleep" && all (fun a => (Props.powerEstablishP p a).isSome)
+          IO.println s!"S {p.name} {name} pwOn={pwOn} pwAny={pwAny} pwEstOn={pwEstOn} pwEst={pwEst} keeps={keeps} estab={estab} sleepDeep={sleepDeep} wakeNew={wakeNew} lutSel={lutSel} lutCur={lutCur} resetFirst={all (Props.C11.goodResets true)} resetAny={all (Props.C11.goodResets false)} abs0={show1 s0} abs1={show1 s1} conforms={all (Props.opConforms p (if name.startsWith "lut" then "lut" else if name.startsWith "refresh" then "refresh" else name))}"
     return 0
   | "e2e" :: rest => do
     -- material for the end-to-end theorems: for every panel / full-frame entry point, from a fresh
